@@ -43,7 +43,7 @@ claim("C13",
       "Representation invariant of Cluster ('the cached distance sub-matrix is None or was computed for exactly the current index set') proved to be established by "
       "Cluster.__init__/merge, left intact by _localize_clusters (loop frame obligations) and re-established by _clean_clusters (loop invariant over a symbolic list of "
       "heap objects); Cluster.get_dimensionality is executed symbolically against the contract of geometry.get_dimensionality: the call-site obligations "
-      "(matrix coherent with the atoms, radii = clustering radii of these atoms, threshold = clustering threshold) imply result = get_dimensionality(own atoms); idempotence.",
+      "(matrix coherent with the atoms, radii = clustering radii of these atoms in the order of the atoms, threshold = clustering threshold) imply result = get_dimensionality(own atoms); idempotence.",
       "Contract of geometry.get_dimensionality assumed here (its body: C09); sub-matrix lemma not machine-checked; numpy ix_/fancy indexing assumed; radii chain from "
       "get_clusters' constructor call is covered by the C01 main-loop contract when present.",
       "symbolic execution over a heap model with loop invariants + z3 (quantified arrays)", "DESIGN.md §3 C13")
@@ -54,13 +54,13 @@ claim("C01",
       "the set of unvisited atoms strictly shrinks), _merge_clusters (while loop invariant over isolated+pending clusters; merged clusters by the contract of the inner merge), _localize_clusters (5 nested loops, ghost done-sets: "
       "pairwise disjoint, subsets, no atom lost), _clean_clusters (kept clusters = one largest bonded component under the DBSCAN contract), merge, Cluster.__init__; the post-condition of get_clusters is proved from the callee contracts.",
       "The periodic search is an assumed contract (A-REGION: get_region returns None or a region with basis indices in range, and a mask containing the seed); its crash-freedom and the prototype-cell periodicity (2 or 3) "
-      "are not covered (L-HEUR); termination of _merge_clusters not proved; A-SK (DBSCAN), A-NP, A-ASE; determinism = seeded RNG + no other randomness reachable through the modelled names (np.random.* other than default_rng is rejected).",
+      "are not covered (L-HEUR); termination of _merge_clusters proved by a variant under the finite-set cardinality lemma (L-CARD, instantiated, not machine-checked); A-SK (DBSCAN), A-NP, A-ASE; determinism = seeded RNG + no other randomness reachable through the modelled names (np.random.* other than default_rng is rejected).",
       "symbolic execution over a heap model with loop invariants + z3 (quantified arrays); native small-scope replay for refutations", "DESIGN.md I.1 / II.3 C01")
 
 claim("C09",
       "get_dimensionality and geometry.get_clusters are executed symbolically from their real source (symbolic cell, pbc, atom count; all four parameter shapes) against the contracts of "
       "get_radii, get_displacement_tensor (C10) and DBSCAN: None <=> more than one bonded component of the cell contents; 0 without periodic directions; otherwise n_pbc - log2(N_2x) "
-      "(CPython math.log evaluated on the whole finite domain); the caller establishes the callee precondition 'atoms inside the cell' (wrap of a copy), requests a cutoff that covers every "
+      "(CPython math.log evaluated on the whole finite domain); the caller establishes the callee precondition 'atoms inside the cell' (wrap of a copy, folding exactly the periodic directions), requests a cutoff that covers every "
       "bonded pair (lemma), doubles exactly the periodic directions, tiles the radii in repeat order; clipping preserves the bond predicate (lemma); label loop invariant for the group count.",
       "A-TSA (topology-scaling theorem) is mathematics and not machine-checked; the displacement-tensor contract is the subject of C10; DBSCAN/ASE/numpy contracts assumed; invariances follow from "
       "'result = formula' and are not proved separately.",
@@ -86,7 +86,7 @@ claim("C08",
 claim("C05",
       "MatID's own contribution to the conventional cell ('spglib's standardised cell moved by one tabulated normalizer') is proved: _find_wyckoff_ground_state is executed from its real source "
       "for all 230 groups with symbolic atomic positions (bounded family of occupancy patterns): the stored positions are get_wrapped_positions of exactly A.x + t for an entry of this group's table "
-      "(or the identity), the letters are permuted by the same entry, lattice / species / atom count of spglib's system are untouched (copy), and in Sohncke groups the applied entry is proper. "
+      "(or the identity), the letters are permuted by the same entry, lattice / species / atom count of spglib's system are untouched (copy), in Sohncke groups the applied entry is proper, and snapping onto a cell face happens only within 1e-5 (numerical clean-up, not a displacement). "
       "Table lemmas (exhaustive): every normalizer maps the group onto itself, preserves every metric tensor of the crystal system, and is proper in Sohncke groups. _get_spglib_conventional_system uses exactly spglib's std cell.",
       "spglib's standardisation is an assumed contract (A-SPG); the 'independent symmetry search on the result' is replaced by the table lemmas; occupancy patterns are a bounded family (single letters, letter pairs), positions symbolic.",
       "symbolic execution of the real selection/application code per group + exhaustive table obligations (z3, exact rationals)", "DESIGN.md §3 C05")
@@ -94,7 +94,7 @@ claim("C05",
 claim("C06",
       "MatID's own part of the normal form: the real selection code of _find_wyckoff_ground_state is executed for all 230 groups on a bounded family of occupancy patterns and on every relabelling of them "
       "by a tabulated normalizer (= the same crystal with the origin moved / equivalent sites permuted) and with atoms in another order: the resulting (letter, element) multiset is identical and no MatIDError is raised; "
-      "the set of letter permutations of every group is closed under composition (exhaustive table lemma); get_material_id is executed on stub sets: independent of their order, depends on number, letters, elements, sizes and the 2D flag; "
+      "the set of letter permutations of every group is closed under composition, and the table represents every Euclidean normalizer of the generic metric (translation grid 1/24) modulo the group and the continuous translations - proper ones only in Sohncke groups (exhaustive table lemmas); get_material_id is executed on stub sets: independent of their order, depends on number, letters, elements, sizes and the 2D flag; "
       "label getters are pure look-ups.",
       "Invariance of spglib's dataset under re-presentation is assumed (A-SPG); SHA-512 prefix injective (A-HASH); occupancy family bounded (single letters, pairs); last clause of the statement not covered.",
       "execution of the real selection code over all groups x normalizers + exhaustive table obligations", "DESIGN.md §3 C06")
@@ -124,7 +124,7 @@ claim("C10",
       "multiples 0..m,-m..-1 as loop invariants; every (i,j,k,l) of the fill nest writes image index i_copy*n+l with original index, multipliers and position = original + multipliers.cell; mixed-radix counter invariants), "
       "CellList::init (bounding-box invariant, bin size >= cutoff, every atom lands in an existing bin: safety obligations), get_neighbours_for_position and CellList::get_displacement_tensor (a generic stored image of a scanned "
       "bin is reported iff within the cutoff; the map keeps for every j<i a genuine image, entries only improve; antisymmetric fill; zero diagonal), driver (extension = cutoff or longest periodic vector), explicit case split for an infinite cutoff. "
-      "Pure lemmas (z3 nonlinear): perpendicular-height sufficiency, adjacent bins suffice, bin index in range. Python wrapper executed on its whole flag domain.",
+      "Pure lemmas (z3 nonlinear): perpendicular-height sufficiency, adjacent bins suffice, bin index in range. Python wrapper executed on its whole flag domain; get_distances (second observation point) executed with symbolic positions and cell for all 8 pbc combinations: its tables are exactly those of the periodic search of the structure with an unbounded cutoff.",
       "Floats as reals; per-iteration obligations + frame are composed into whole-loop statements by the standard array-initialisation / monotone-map induction schema (stated in DESIGN.md, not machine-checked); "
       "the final 'exact within range' statement is the composition of the listed lemmas; pybind11 stub; native replay cannot follow .cpp edits (extension cannot be rebuilt here).",
       "clang AST -> mechanical translation -> symbolic execution with invariants + z3 lemmas", "DESIGN.md §3 C10")
